@@ -413,3 +413,17 @@ func (r *Router) DeadStretch(until time.Duration) time.Duration {
 	}
 	return longest
 }
+
+// Arm installs a new fault schedule and restarts the datagram ordinals (used by scenarios that run a
+// preparatory connection first: the faults then apply to the measured connection only).
+func (r *Router) Arm(faults []Fault) {
+	r.mu.Lock()
+	r.faults = faults
+	r.used = make([]bool, len(faults))
+	r.counts = map[string]int{}
+	r.Applied = nil
+	r.mu.Unlock()
+}
+
+// Mark returns the current length of the log (to separate phases of a scenario).
+func (r *Router) Mark() int { r.mu.Lock(); defer r.mu.Unlock(); return len(r.Log) }
